@@ -1133,3 +1133,239 @@ func stripConv(v ssa.Value) ssa.Value {
 		}
 	}
 }
+
+// ---- K7 (C16): header dimension readers agree ----
+//
+// The container parser (DecodeConfig, GetFeatures), the demuxer / muxer (frame records, canvas) and the
+// VP8 decoder itself each extract width and height from the bitstream header. The extracted values are
+// straight-line expressions of the header bytes; S8 reduces each to a normal form over the bytes h(i)
+// (shifts and ors of bytes become sums, "& 0x3fff" a reduction mod 2^14) and the forms must be equal.
+func kernelHeaderDims(c *Ctx, p *Program) {
+	type reader struct {
+		name string
+		pos  string
+		vals []string // normal forms: width, height[, alpha]
+	}
+	evalRet := func(fn *ssa.Function, nres int) ([]string, error) {
+		var out []string
+		err := kernelEval(func(x *kx) {
+			in := x.newObj("h")
+			in.input = func(off int64) (string, int64, int64, bool) {
+				if off < 0 || off >= 64 {
+					return "", 0, 0, false
+				}
+				return fmt.Sprintf("h(%d)", off), 0, 255, true
+			}
+			f := &kframe{fn: fn, env: map[ssa.Value]kval{}}
+			f.env[fn.Params[0]] = kval{kind: kvSlice, obj: in, ln: 64, cp: 64}
+			for _, b := range fn.Blocks {
+				ret, ok := b.Instrs[len(b.Instrs)-1].(*ssa.Return)
+				if !ok || len(ret.Results) != nres+1 {
+					continue
+				}
+				if k, isC := ret.Results[nres].(*ssa.Const); !isC || !k.IsNil() {
+					continue
+				}
+				if _, isC := ret.Results[0].(*ssa.Const); isC {
+					continue
+				}
+				for i := 0; i < nres; i++ {
+					v := x.lazyVal(f, ret.Results[i], 0)
+					switch v.kind {
+					case kvNum:
+						out = append(out, v.n.key())
+					case kvBool:
+						out = append(out, fmt.Sprint(v.b))
+					default:
+						kfail("result %d is not a number", i)
+					}
+				}
+				return
+			}
+			kfail("no successful return with computed results found")
+		})
+		return out, err
+	}
+	var vp8, vp8l []reader
+	for _, rel := range []string{"internal/container", "mux"} {
+		pk := p.SSAPkg(rel)
+		if pk == nil {
+			c.AnchorMissing("K8-header-dims", "package "+rel)
+			continue
+		}
+		for _, fn := range p.SrcFuncs() {
+			if fn.Pkg != pk || fn.Blocks == nil || fn.Signature.Recv() != nil || fn.Signature.Params().Len() != 1 {
+				continue
+			}
+			if types.TypeString(fn.Signature.Params().At(0).Type(), nil) != "[]byte" {
+				continue
+			}
+			res := fn.Signature.Results()
+			sig := ""
+			for i := 0; i < res.Len(); i++ {
+				sig += types.TypeString(res.At(i).Type(), nil) + ","
+			}
+			switch sig {
+			case "int,int,error,":
+				vals, err := evalRet(fn, 2)
+				if err != nil {
+					c.Fail("K8-header-dims", FnName(fn), p.Pos(fn.Pos()), "cannot be reduced to a normal form: "+err.Error())
+					continue
+				}
+				vp8 = append(vp8, reader{FnName(fn), p.Pos(fn.Pos()), vals})
+			case "int,int,bool,error,":
+				vals, err := evalRet(fn, 3)
+				if err != nil {
+					// the alpha flag is a comparison: evaluate width and height only
+					vals, err = evalRet2(fn)
+				}
+				if err != nil {
+					c.Fail("K8-header-dims", FnName(fn), p.Pos(fn.Pos()), "cannot be reduced to a normal form: "+err.Error())
+					continue
+				}
+				vp8l = append(vp8l, reader{FnName(fn), p.Pos(fn.Pos()), vals})
+			}
+		}
+	}
+	// the VP8 decoder: the values stored into the picture header's Width / Height
+	if pk := p.SSAPkg("internal/lossy"); pk != nil {
+		for _, fn := range p.SrcFuncs() {
+			if fn.Pkg != pk || fn.Blocks == nil {
+				continue
+			}
+			var wv, hv ssa.Value
+			for _, b := range fn.Blocks {
+				for _, in := range b.Instrs {
+					st, ok := in.(*ssa.Store)
+					if !ok {
+						continue
+					}
+					fa, ok := st.Addr.(*ssa.FieldAddr)
+					if !ok {
+						continue
+					}
+					stt := structOf(fa.X.Type())
+					if stt == nil || !hasFields(stt, "Width", "Height", "XScale", "YScale") {
+						continue
+					}
+					switch stt.Field(fa.Field).Name() {
+					case "Width":
+						wv = st.Val
+					case "Height":
+						hv = st.Val
+					}
+				}
+			}
+			if wv == nil || hv == nil {
+				continue
+			}
+			var sl *ssa.Parameter
+			for _, par := range fn.Params {
+				if types.TypeString(par.Type(), nil) == "[]byte" {
+					sl = par
+				}
+			}
+			if sl == nil {
+				continue
+			}
+			var vals []string
+			err := kernelEval(func(x *kx) {
+				in := x.newObj("h")
+				in.input = func(off int64) (string, int64, int64, bool) {
+					if off < 0 || off >= 64 {
+						return "", 0, 0, false
+					}
+					return fmt.Sprintf("h(%d)", off), 0, 255, true
+				}
+				f := &kframe{fn: fn, env: map[ssa.Value]kval{}}
+				f.env[sl] = kval{kind: kvSlice, obj: in, ln: 64, cp: 64}
+				for _, v := range []ssa.Value{wv, hv} {
+					r := x.lazyVal(f, v, 0)
+					if r.kind != kvNum {
+						kfail("stored value is not a number")
+					}
+					vals = append(vals, r.n.key())
+				}
+			})
+			if err != nil {
+				c.Fail("K8-header-dims", FnName(fn), p.Pos(fn.Pos()), "the stored picture dimensions cannot be reduced to a normal form: "+err.Error())
+				continue
+			}
+			vp8 = append(vp8, reader{FnName(fn), p.Pos(fn.Pos()), vals})
+		}
+	}
+	n := 0
+	cmp := func(kind string, rs []reader, min int) {
+		if len(rs) < min {
+			c.Fail("K8-header-dims", kind+":readers", "", fmt.Sprintf("only %d readers of the %s header dimensions were found (expected at least %d)", len(rs), kind, min))
+			return
+		}
+		for _, r := range rs[1:] {
+			n++
+			same := len(r.vals) >= 2 && len(rs[0].vals) >= 2 && r.vals[0] == rs[0].vals[0] && r.vals[1] == rs[0].vals[1]
+			if same && len(r.vals) > 2 && len(rs[0].vals) > 2 {
+				same = r.vals[2] == rs[0].vals[2]
+			}
+			c.Func(r.name)
+			c.Check(same, "K8-header-dims", kind+":"+r.name+"~"+rs[0].name, r.pos,
+				"width and height are the same function of the header bytes as in "+rs[0].name+" ("+short(rs[0].vals[0])+" / "+short(rs[0].vals[1])+")",
+				fmt.Sprintf("%s extracts %v from the %s header, %s extracts %v: the header queries and the decoder disagree on the picture size for some headers", r.name, r.vals, kind, rs[0].name, rs[0].vals))
+		}
+	}
+	sort.Slice(vp8, func(i, j int) bool { return vp8[i].name < vp8[j].name })
+	sort.Slice(vp8l, func(i, j int) bool { return vp8l[i].name < vp8l[j].name })
+	cmp("VP8", vp8, 3)
+	cmp("VP8L", vp8l, 2)
+	c.Floor("K8-header-dims", n, 3)
+}
+
+func hasFields(st *types.Struct, names ...string) bool {
+	have := map[string]bool{}
+	for i := 0; i < st.NumFields(); i++ {
+		have[st.Field(i).Name()] = true
+	}
+	for _, n := range names {
+		if !have[n] {
+			return false
+		}
+	}
+	return true
+}
+
+// evalRet2: width and height of a VP8L header reader (the alpha result is a comparison).
+func evalRet2(fn *ssa.Function) ([]string, error) {
+	var out []string
+	err := kernelEval(func(x *kx) {
+		in := x.newObj("h")
+		in.input = func(off int64) (string, int64, int64, bool) {
+			if off < 0 || off >= 64 {
+				return "", 0, 0, false
+			}
+			return fmt.Sprintf("h(%d)", off), 0, 255, true
+		}
+		f := &kframe{fn: fn, env: map[ssa.Value]kval{}}
+		f.env[fn.Params[0]] = kval{kind: kvSlice, obj: in, ln: 64, cp: 64}
+		for _, b := range fn.Blocks {
+			ret, ok := b.Instrs[len(b.Instrs)-1].(*ssa.Return)
+			if !ok || len(ret.Results) != 4 {
+				continue
+			}
+			if k, isC := ret.Results[3].(*ssa.Const); !isC || !k.IsNil() {
+				continue
+			}
+			if _, isC := ret.Results[0].(*ssa.Const); isC {
+				continue
+			}
+			for i := 0; i < 2; i++ {
+				v := x.lazyVal(f, ret.Results[i], 0)
+				if v.kind != kvNum {
+					kfail("result %d is not a number", i)
+				}
+				out = append(out, v.n.key())
+			}
+			return
+		}
+		kfail("no successful return with computed results found")
+	})
+	return out, err
+}
